@@ -204,7 +204,7 @@ class C12(Check):
         r = rs["cfg"]
         backend = BACKENDS[bidx]
         nb = r.choice([1, 2, 2, 3])
-        buckets = ["aw-watcher-window_h1", "aw-watcher-afk_h1", "aw-watcher-web_h1"][:nb]
+        buckets = ["aw-watcher-window_h1", "aw-watcher-afk_h#1", "aw-watcher-web_h1"][:nb]
         lat = gen.lattice(rs["lat"])
         lat["n"] = min(lat["n"], 12)
         cfg = {"lat": lat, "bulk_max": 8, "upsert_p": 0.1, "never_p": 0.1}
